@@ -39,3 +39,44 @@ pub fn sort_preferred(
     }
     out
 }
+
+/// The channel on which a TLS acceptor hands the connection's `TlsConnectionInfo` to the
+/// connection's service (crate-private `info::tls::channel`), with its two ends made public.
+#[cfg(all(feature = "server", feature = "tls"))]
+pub mod tls_info {
+    use crate::info::tls::{channel, TlsConnectionInfoReciever, TlsConnectionInfoSender};
+    use crate::info::TlsConnectionInfo;
+
+    /// Sending end.
+    #[derive(Debug)]
+    pub struct Sender(TlsConnectionInfoSender);
+
+    /// Receiving end; clones share the channel.
+    #[derive(Debug, Clone)]
+    pub struct Receiver(TlsConnectionInfoReciever);
+
+    /// `info::tls::channel()`
+    pub fn new() -> (Sender, Receiver) {
+        let (tx, rx) = channel();
+        (Sender(tx), Receiver(rx))
+    }
+
+    /// `TlsConnectionInfoReciever::empty()`: the receiver of a connection without TLS.
+    pub fn empty() -> Receiver {
+        Receiver(TlsConnectionInfoReciever::empty())
+    }
+
+    impl Sender {
+        /// `TlsConnectionInfoSender::send`
+        pub fn send(&mut self, info: TlsConnectionInfo) {
+            self.0.send(info)
+        }
+    }
+
+    impl Receiver {
+        /// `TlsConnectionInfoReciever::recv`
+        pub async fn recv(&self) -> Option<TlsConnectionInfo> {
+            self.0.recv().await
+        }
+    }
+}
